@@ -425,7 +425,7 @@ pub fn run(args: &Args) -> i32 {
         });
     }
 
-    let n = args.vol(3000, 200_000);
+    let n = args.vol(8000, 400_000);
     par_cases(&rec, 7, n, |i, r| {
         let h = gen_history(r);
         // several probes per history
